@@ -1,16 +1,16 @@
 \* witness
 CONSTANTS
-  Objs = {1, 2, 3, 8, 9, 10}
+  Objs = {1, 30, 31}
   Types = {"P", "D", "VM", "VR"}
-  TypesOf <- MC_TypesOf
-  Loads <- MC_Loads
+  TypesOf <- MC_TypesOfC
+  Loads <- MC_LoadsC
   Partner <- MC_Partner
-  TolerantOpts = {FALSE}
-  Streams = {4}
+  TolerantOpts = {TRUE, FALSE}
+  Streams = {}
   MaxCalls = 3
   ObjCacheOpts = {TRUE, FALSE}
-  StmCacheOpts = {TRUE, FALSE}
-  Dev = {"error_cached_across_types"}
+  StmCacheOpts = {FALSE}
+  Dev = {"nested_value_cached"}
 INIT Init
 NEXT Next
 INVARIANTS Invisible
